@@ -72,7 +72,7 @@ def Pat.nodeKind : Pat → NodeKind
   | .closure _ e => .closure e.text
   | .enum _ path elems => .enumVariant (pathStr path.text) (if elems.length = 0 then none else some elems.ids)
   | .tuple _ _ elems => .tuple elems.ids
-  | .slice _ _ elems => .slice elems.ids false   -- pinned: the `usize::MAX` sentinel is never assigned
+  | .slice _ _ elems => .slice elems.sliceChildIds elems.hasSliceRest
   | .struct _ path fields rest =>
     .struct (match path with | some p => pathStr p.text | none => "_") fields.fieldEntries rest
   | .set _ _ elems rest => .set elems.ids rest
@@ -89,7 +89,7 @@ def genNodes : Pat → Option Nat → List (Nat × NodeDef)
   | .tuple id sp elems, par =>
     genNodesItems elems id false ++ [(id, ⟨(Pat.tuple id sp elems).nodeKind, par, sp⟩)]
   | .slice id sp elems, par =>
-    genNodesItems elems id false ++ [(id, ⟨(Pat.slice id sp elems).nodeKind, par, sp⟩)]
+    genNodesItems elems id true ++ [(id, ⟨(Pat.slice id sp elems).nodeKind, par, sp⟩)]
   | .set id sp elems rest, par =>
     genNodesItems elems id false ++ [(id, ⟨(Pat.set id sp elems rest).nodeKind, par, sp⟩)]
   | .map id sp entries rest, par =>
